@@ -44,8 +44,9 @@ RULE = (
     "fresh objects; canonical states (observation, hidden fields) are hashed for the distinct-state count; non-trivial = history of length >= 1"
 )
 BOUNDS = {
-    "quick": "part A: 10 fixtures x 3 starts x 6 spans x 3 steps x 10 request forms through iter() (non-distinct combinations not generated), forms "
-    "{Date stop, timedelta stop} through ephem(), ephemeris() and (Sgp4, Kepler, KeplerNum) Station.visibility(); part P: 9 fixtures x k = +-1..7 steps from the epoch (propagate target, "
+    "quick": "part A: 13 fixtures (incl. ephemerides with a linear and a 2- / 3-point Lagrange interpolator whose table ends where the ranges of part B end) x 3 starts x 6 spans x 3 steps x 10 request forms through iter() (non-distinct combinations not generated), forms "
+    "{Date stop, timedelta stop} through ephem(), ephemeris() and (Sgp4, Kepler, KeplerNum) Station.visibility(); part E: 4 ephemerides (Lagrange 8 / 3 / 2, linear) x 12 requests touching exactly "
+    "the first / last recorded date; part P: 9 fixtures x k = +-1..7 steps from the epoch (propagate target, "
     "iteration start); part B: all histories of depth <= 3 over 9 operations (820 per orbit propagator, 9 fixtures) / 11 operations (1 464, ephemeris)",
     "thorough": "part A: all forms through iter(), ephemeris() and ephem(); part B: depth <= 4 for Sgp4, Kepler, KeplerNum, CW with maneuvers "
     "(7 381 histories each) and the ephemeris (16 105), depth <= 3 for the variant fixtures",
@@ -74,7 +75,9 @@ NOT_COVERED = (
 
 DELTA = 60_000_000  # us
 LIBERR = (ValueError, AttributeError, TypeError, RuntimeError, KeyError, IndexError, ArithmeticError, StopIteration)
-PROPS = ["Sgp4", "Kepler", "J2", "NonePropagator", "KeplerNum", "KeplerNumA", "KeplerNumMan", "CW", "CWman", "Ephem"]
+PROPS = ["Sgp4", "Kepler", "J2", "NonePropagator", "KeplerNum", "KeplerNumA", "KeplerNumMan", "CW", "CWman", "Ephem", "EphemLin", "EphemL2", "EphemL3"]
+# ephemerides with a linear / low-order Lagrange interpolator: their table ends exactly where the ranges of part B end (12 steps after the epoch)
+EPHEM_VARIANTS = {"Ephem": (None, None, -12, 18), "EphemLin": ("linear", None, -9, 12), "EphemL2": ("lagrange", 2, -9, 12), "EphemL3": ("lagrange", 3, -9, 12)}
 STARTS = [("before", -2 * DELTA), ("at", 0), ("after", int(2.5 * DELTA))]
 SPANS = [("+10D", 10 * DELTA), ("+9.3D", int(9.3 * DELTA)), ("+3.3D", int(3.3 * DELTA)), ("+3D", 3 * DELTA), ("0", 0), ("-7D", -7 * DELTA)]
 STEPS = [("D", DELTA), ("0.45D", int(0.45 * DELTA)), ("own", None)]
@@ -191,11 +194,12 @@ class Fix:
                     ContinuousMan(d0 + timedelta(microseconds=6 * DELTA), timedelta(microseconds=2 * DELTA), dv=[0.0, 0.08, 0.01]),
                 ]
                 self.has_man = True
-        elif pname == "Ephem":
+        elif pname in EPHEM_VARIANTS:
+            method, order, k0, k1 = EPHEM_VARIANTS[pname]
             src = Orbit(twobody.kep_to_cart(*MEO, mu), _G["date0"], "cartesian", "EME2000", "Kepler")
-            self.obj = Ephem([src.propagate(_G["date0"] + timedelta(microseconds=k * DELTA)) for k in range(-12, 19)])
+            self.obj = Ephem([src.propagate(_G["date0"] + timedelta(microseconds=k * DELTA)) for k in range(k0, k1 + 1)], method=method, order=order)
             self.is_ephem = True
-            self.nodes_us = [k * DELTA for k in range(-12, 19)]
+            self.nodes_us = [k * DELTA for k in range(k0, k1 + 1)]
             self.speed = math.sqrt(mu * (2 / (MEO[0] * (1 - MEO[1])) - 1 / MEO[0]))
         else:
             raise ValueError(pname)
@@ -629,6 +633,83 @@ def check_near_epoch(case, t):
 
 
 # ---------------------------------------------------------------------------
+# part E : requests touching exactly the first / last recorded date of an ephemeris (every interpolator)
+
+
+@guarded
+def check_ephem_edges(case, t):
+    from datetime import timedelta
+    from beyond.dates import Date
+
+    pname, req = case["prop"], case["req"]
+    fx = Fix(pname)
+    first, last = fx.nodes_us[0], fx.nodes_us[-1]
+    n = len(fx.nodes_us) - 1
+    node_state = {u: A(o) for u, o in zip(fx.nodes_us, fx.obj._orbits)}
+    key = ("E", pname, req)
+    t.ev(key)
+    t.state(key)
+    clause = "dates from the first to the last recorded one, both included, are propagated / yielded"
+    div = next(d for d in (3, 4, 5, 7, 2) if n % d == 0)  # a step dividing the whole table
+    mid = fx.nodes_us[n // 2] + DELTA // 3
+    td = lambda us: timedelta(microseconds=us)
+    try:
+        if req == "propagate-first":
+            got, exp = [fx.obj.propagate(fx.at(first))], [first]
+        elif req == "propagate-last":
+            got, exp = [fx.obj.propagate(fx.at(last))], [last]
+        elif req == "iter-native":
+            got, exp = list(fx.obj.iter()), list(fx.nodes_us)
+        elif req == "iter-native-to-last":
+            got, exp = list(fx.obj.iter(start=fx.at(0), stop=fx.at(last))), [u for u in fx.nodes_us if u >= 0]
+        elif req == "iter-step-dividing":
+            got, exp = list(fx.obj.iter(start=fx.at(first), stop=fx.at(last), step=td(div * DELTA))), list(range(first, last + 1, div * DELTA))
+        elif req == "iter-step-node":
+            got, exp = list(fx.obj.iter(start=fx.at(0), stop=fx.at(last), step=td(DELTA))), list(range(0, last + 1, DELTA))
+        elif req == "iter-step-half":
+            got, exp = list(fx.obj.iter(stop=fx.at(last), step=td(DELTA // 2))), list(range(first, last + 1, DELTA // 2))
+        elif req == "iter-stop-timedelta":
+            got, exp = list(fx.obj.iter(start=fx.at(0), stop=td(last), step=td(DELTA))), list(range(0, last + 1, DELTA))
+        elif req == "dates-list":
+            ds = [first, mid, last]
+            got, exp = list(fx.obj.iter(dates=[fx.at(u) for u in ds])), ds
+        elif req == "dates-list-reversed":
+            ds = [last, mid, first]
+            got, exp = list(fx.obj.iter(dates=[fx.at(u) for u in ds])), ds
+        elif req == "dates-range":
+            got = list(fx.obj.iter(dates=Date.range(fx.at(first), fx.at(last), td(div * DELTA), inclusive=True)))
+            exp = list(range(first, last + 1, div * DELTA))
+        elif req == "ephem-subset":
+            got, exp = list(fx.obj.ephem(start=fx.at(0), stop=fx.at(last), step=td(2 * DELTA))), list(range(0, last + 1, 2 * DELTA))
+        else:
+            raise ValueError(req)
+        t.trans(len(got))
+    except LIBERR as e:
+        t.fail(f"Ephem.iter/table-edges/raises-{type(e).__name__}", clause, case, "states", repr(e)[:200],
+               f"{pname} (method {fx.obj.method}, order {fx.obj.order}) {req}: {type(e).__name__}: {str(e)[:150]}")
+        return
+    got_us = [fx.us(o.date) for o in got]
+    t.outcome(("E", pname, req, got_us == exp))
+    if got_us != exp:
+        t.fail("Ephem.iter/table-edges/wrong-dates", clause, case, [u * 1e-6 for u in exp][:40], [u * 1e-6 for u in got_us][:40],
+               f"{pname} {req}: expected {len(exp)} dates [{exp[0]*1e-6}..{exp[-1]*1e-6}] s, got {len(got_us)}")
+        return
+    worst = 0.0
+    for o, u in zip(got, got_us):
+        if u in node_state:  # an interpolator reproduces its nodes
+            worst = max(worst, float(np.linalg.norm((A(o) - node_state[u])[:3])))
+    if not t.margin("E: state yielded at a recorded date vs the recorded state / 1e-6 m", worst, 1e-6):
+        t.fail("Ephem.iter/table-edges/node-state", "at a recorded date the recorded state is returned", case, 0.0, worst, f"{pname} {req}: {worst:.3e} m")
+    if any(o is x for o in got for x in fx.obj._orbits):
+        t.fail("Ephem.iter/yielded-state-aliases-source", "yielded states are new objects: changing them cannot change the source", case, "new objects",
+               "a yielded state IS a stored orbit", f"{pname} {req}")
+
+
+E_REQS = ["propagate-first", "propagate-last", "iter-native", "iter-native-to-last", "iter-step-dividing", "iter-step-node", "iter-step-half",
+          "iter-stop-timedelta", "dates-list", "dates-list-reversed", "dates-range", "ephem-subset"]
+
+
+# ---------------------------------------------------------------------------
 # part B
 
 OPS_ORBIT = ["p1", "p2", "it1", "ab2", "itL", "itD", "eph", "q1", "mut"]
@@ -640,7 +721,7 @@ RSTAR = (DELTA, 11 * DELTA, int(1.25 * DELTA))
 
 
 def ops_of(pname):
-    return OPS_EPHEM if pname == "Ephem" else OPS_ORBIT
+    return OPS_EPHEM if pname in EPHEM_VARIANTS else OPS_ORBIT
 
 
 class HistoryViolation(Exception):
@@ -843,7 +924,7 @@ def compare_obs(a, b):
 @guarded
 def check_history(case, t):
     pname, hist = case["prop"], case["history"]
-    site = "Ephem" if pname == "Ephem" else pname
+    site = "Ephem" if pname in EPHEM_VARIANTS else pname
     clause = "results do not depend on earlier calls / re-used objects; the initial orbit is never modified"
     if "fresh_obs" not in _G or _G.get("fresh_for") != pname:
         w0 = World(pname)
@@ -921,9 +1002,12 @@ def units(tier, seed):
                     u.append((cfg, dict(part="A", cases=cases)))
     for pname in P_PROPS:
         u.append((cfg, dict(part="P", cases=[dict(part="P", prop=pname, k=k) for k in range(-7, 8) if k])))
+    u.append((cfg, dict(part="E", cases=[dict(part="E", prop=pn, req=r) for pn in EPHEM_VARIANTS for r in E_REQS])))
     for pname in PROPS:
         # thorough: depth 4 for one fixture of each kind, depth 3 for their variants (J2, NonePropagator, the second/third KeplerNum, plain CW)
         depth = 4 if (tier == "thorough" and pname in ("Sgp4", "Kepler", "KeplerNum", "CWman", "Ephem")) else 3
+        if tier == "quick" and pname in ("EphemLin", "EphemL2", "EphemL3"):
+            depth = 2  # interpolator variants of the ephemeris: depth 2 in quick, 3 in thorough
         for first in [None] + ops_of(pname):
             if first is None:
                 u.append((cfg, dict(part="B", prop=pname, prefix=[], depth=0)))
@@ -945,6 +1029,9 @@ def run_unit(p, t):
     elif p["part"] == "P":
         for c in p["cases"]:
             check_near_epoch(c, t)
+    elif p["part"] == "E":
+        for c in p["cases"]:
+            check_ephem_edges(c, t)
     else:
         pname, prefix, depth = p["prop"], p["prefix"], p["depth"]
 
@@ -962,5 +1049,7 @@ def replay(case, t):
         check_contract(case, t)
     elif case["part"] == "P":
         check_near_epoch(case, t)
+    elif case["part"] == "E":
+        check_ephem_edges(case, t)
     else:
         check_history(case, t)
